@@ -34,10 +34,11 @@ const (
 	OpChan  // send / recv / select: cases
 	OpAtomic
 	OpChoose // environment / data choice with N alternatives
+	OpLast   // enabled only while no other thread has anything enabled (lets everybody else run first)
 )
 
 func (k OpKind) String() string {
-	return [...]string{"start", "yield", "lock", "rlock", "wlock", "wgwait", "chan", "atomic", "choose"}[k]
+	return [...]string{"start", "yield", "lock", "rlock", "wlock", "wgwait", "chan", "atomic", "choose", "last"}[k]
 }
 
 type Dir int
@@ -139,6 +140,8 @@ type Sched struct {
 	MapPolicy      int // 0 ascending, 1 descending, >=2 rotate by (MapPolicy-1)
 	seq            map[uintptr]int
 	OnDurable      func(t *Thread, site string, after bool) bool // true => crash the thread's node
+	// CrashGrace: see graceBeforeCrash.
+	CrashGrace bool
 	// FailDurable, when set, may make a durable write fail instead of happening: a non-nil error is returned to the
 	// caller of the write and nothing is written.
 	FailDurable  func(t *Thread, where string) error
@@ -399,7 +402,12 @@ func (s *Sched) Alternatives() ([]Alt, []int) {
 		}
 	}
 	seenPair := map[[2]int]bool{}
+	var waitingLast []*Thread
 	for _, t := range order {
+		if t.op.kind == OpLast {
+			waitingLast = append(waitingLast, t)
+			continue
+		}
 		as := s.enabledOf(t)
 		first := true
 		for _, a := range as {
@@ -433,6 +441,12 @@ func (s *Sched) Alternatives() ([]Alt, []int) {
 			alts = append(alts, a)
 			costs = append(costs, c)
 			first = false
+		}
+	}
+	if len(alts) == 0 {
+		for _, t := range waitingLast {
+			alts = append(alts, Alt{T: t})
+			costs = append(costs, 0)
 		}
 	}
 	if s.DelayBounding {
@@ -856,6 +870,7 @@ func Durable(where string, fn func() error) error {
 	}
 	s.DurableCount++
 	if s.OnDurable(s.cur, where, false) {
+		s.graceBeforeCrash()
 		s.crashCurrent()
 	}
 	if s.FailDurable != nil {
@@ -866,9 +881,19 @@ func Durable(where string, fn func() error) error {
 	}
 	err := fn()
 	if s.OnDurable(s.cur, where, true) {
+		s.graceBeforeCrash()
 		s.crashCurrent()
 	}
 	return err
+}
+
+// graceBeforeCrash (CrashGrace): the crash strikes when the writing thread is at its crash point AND every other thread
+// has run as far as it can - the schedule in which the writer was the slow one. What the other threads of the node did
+// meanwhile (hand an acknowledgement to a waiting caller, answer a request) has happened before the crash.
+func (s *Sched) graceBeforeCrash() {
+	if s.CrashGrace {
+		s.park(pendingOp{kind: OpLast, where: "crash-point"})
+	}
 }
 
 // crashCurrent crashes the current thread's node: the caller unwinds now; the driver kills the
